@@ -25,6 +25,11 @@
 //! multi list x HAVING {none, COUNT(*) > 1}.  Two grouping columns of the same type with
 //! overlapping domains: a group key that does not separate (NULL,v) from (v,NULL) merges groups.
 //!
+//! Sign variants: the enumerated tables of <= 2 (quick) / <= 3 (thorough) rows and the fixed tables also
+//! exist with the numeric columns negated (a in {-1,-2}, b in {-0.5,-1.5,-2.5}: every group's non-NULL
+//! values are all negative) and mixed (a: 1 -> -1, b: 0.5 -> -0.5, 2.5 -> -2.5); they run the query space of
+//! the deep pass.  (The unsigned tables are the all-positive case.)
+//!
 //! Oracle: `Query::eval` compared with the observed rows as bags by `bags_loosely_equal`.
 //! Tolerances (all of them): `Int(n)` ~ `Float(n.0)` (result type of SUM/AVG/MIN/MAX is not
 //! pinned), floats equal within 1e-9 relative (summation order), row order is free.
@@ -861,7 +866,7 @@ impl Check for C16 {
         let mut s = Spec::new(
             PROP,
             "exploration",
-            "a case is one aggregate query on one table.  Tables: every multiset of <=4 (quick) / <=6 (thorough) rows over (a,c) in {NULL,1,2}x{NULL,'a','b'} with the REAL column b a fixed function of (a,c) (values NULL/0.5/1.5/2.5), as t(a INT,b REAL,c TEXT) and with an INT PRIMARY KEY, incl. the empty and all-NULL tables, plus five fixed 8-row tables.  Queries: SELECT [g,] agg FROM t [WHERE p] [GROUP BY g[,h]] [HAVING agg cmp k]: 23 single aggregates (COUNT(*), COUNT/MIN/MAX over a,b,a+1,b+1,c, SUM/AVG over a,b,a+1,b+1) + 2 multi-aggregate lists x 6 groupings (none,a,c,a+1,(a,c),(c,a+1)) x 4 WHERE (none, a>1, c='a', a<0) x 4 HAVING (none, agg>1, agg=1, COUNT(*)>1) on tables of <=3 (quick) / <=4 (thorough) rows and the fixed tables (full pass); on the larger tables (deep pass) the same with the constructs of the open findings KF-C16-02..06 left out (counted as pruned).  A second table family t(a INT,d INT,c TEXT) (all multisets of <=3 / <=4 rows over (a,d) in {NULL,1,2}^2 + one fixed 10-row table, x2 variants) runs GROUP BY a,d | d,a (fixed table: also a,d,c | c,d,a) x 9 single aggregates + 1 multi list x HAVING {none, COUNT(*)>1}: grouping columns of the same type with overlapping domains.  On every pk table of the full pass: COUNT(*) via the header fast path and via a scan after each of n single-row DELETEs.  Expected rows = refmodel Query::eval of the same Query value that rendered the SQL; compared as bags.  Distinct = distinct (table, SQL text) by construction; non-trivial = table not empty.",
+            "a case is one aggregate query on one table.  Tables: every multiset of <=4 (quick) / <=6 (thorough) rows over (a,c) in {NULL,1,2}x{NULL,'a','b'} with the REAL column b a fixed function of (a,c) (values NULL/0.5/1.5/2.5), as t(a INT,b REAL,c TEXT) and with an INT PRIMARY KEY, incl. the empty and all-NULL tables, plus five fixed 8-row tables.  Queries: SELECT [g,] agg FROM t [WHERE p] [GROUP BY g[,h]] [HAVING agg cmp k]: 23 single aggregates (COUNT(*), COUNT/MIN/MAX over a,b,a+1,b+1,c, SUM/AVG over a,b,a+1,b+1) + 2 multi-aggregate lists x 6 groupings (none,a,c,a+1,(a,c),(c,a+1)) x 4 WHERE (none, a>1, c='a', a<0) x 4 HAVING (none, agg>1, agg=1, COUNT(*)>1) on tables of <=3 (quick) / <=4 (thorough) rows and the fixed tables (full pass); on the larger tables (deep pass) the same with the constructs of the open findings KF-C16-02..06 left out (counted as pruned).  Sign variants: the enumerated tables of <=2 (quick) / <=3 (thorough) rows and the fixed tables with the numeric columns a,b negated (all values negative) and mixed-sign, on the deep-pass query space.  A second table family t(a INT,d INT,c TEXT) (all multisets of <=3 / <=4 rows over (a,d) in {NULL,1,2}^2 + one fixed 10-row table, x2 variants) runs GROUP BY a,d | d,a (fixed table: also a,d,c | c,d,a) x 9 single aggregates + 1 multi list x HAVING {none, COUNT(*)>1}: grouping columns of the same type with overlapping domains.  On every pk table of the full pass: COUNT(*) via the header fast path and via a scan after each of n single-row DELETEs.  Expected rows = refmodel Query::eval of the same Query value that rendered the SQL; compared as bags.  Distinct = distinct (table, SQL text) by construction; non-trivial = table not empty.",
         );
         s.assumptions = &[
             "oracle = refmodel::sql (cross-checked against SQLite): aggregates ignore NULL except COUNT(*); empty or all-NULL input gives COUNT 0 and NULL for SUM/AVG/MIN/MAX; one group per distinct key with NULL keys forming one group; an aggregate query without GROUP BY has exactly one row; HAVING keeps groups whose condition is TRUE",
